@@ -7,7 +7,7 @@ Oracle on the implementation alone: the same program in the equivalent spellings
 (define sugar vs lambda; direct call vs apply; fixed parameters vs a rest list) gives the same
 per-form results and the same tick trace."""
 import random
-from . import common as C, proggen as P, progrun as R
+from . import common as C, proggen as P, progrun as R, pyeval
 
 PROP = "C01"
 MODULES = ["RuschmProofs.C01"]
@@ -35,6 +35,7 @@ def run(rep, tier, rng):
     model = C.run_driver(cases)
     res = R.compare(rep, cases, impl, model, "core evaluator (RuschmModel/Eval.lean <-> interpreter.rs)")
     byid = {c[0]: c for c in cases}
+    ref_judged = [0]
     for ids in groups:
         if not all(i in res for i in ids):
             continue
@@ -43,6 +44,22 @@ def run(rep, tier, rng):
         rep.nontrivial(tuple(byid[ids[0]][2]))
         if len(rep.cov["samples"]) < 4:
             rep.sample({"program": byid[ids[0]][2][2:5], "results": base[0][1:4], "ticks": base[1][:80]})
+        # the independent reference evaluator on EVERY spelling: values of the forms and the order in which the probes fire
+        judged = False
+        for k, cid in enumerate(ids):
+            ref = pyeval.run_program(byid[cid][2][2:])
+            if ref is None:
+                continue
+            judged = True
+            r = res[cid]
+            if r[0][1:] != ref[0] or r[1].split() != ref[1]:
+                j = next((j for j in range(len(ref[0])) if r[0][1 + j] != ref[0][j]), None)
+                rep.violation({"what": "the program does not yield the values and the order of evaluation R7RS assigns "
+                                       "(independent reference evaluator)", "spelling": SPELLINGS[k], "program": byid[cid][2],
+                               "form_index": j, "implementation": r[0][1 + j] if j is not None else {"ticks": r[1]},
+                               "reference": ref[0][j] if j is not None else {"ticks": " ".join(ref[1])}})
+                break
+        ref_judged[0] += 1 if judged else 0
         for k, cid in enumerate(ids[1:], 1):
             r = res[cid]
             # procedures print as <proc> in every spelling; everything else must be identical
@@ -53,6 +70,7 @@ def run(rep, tier, rng):
                                "form_index": j, "a": base[0][j] if j is not None else base[1],
                                "b": r[0][j] if j is not None else r[1]})
                 break
+    rep.extra["program_groups_judged_by_the_reference_evaluator"] = ref_judged[0]
 
 
 def main(tier, seed):
